@@ -852,3 +852,19 @@ Proof.
   - reflexivity.
   - rewrite E, app_nil_r, rev_involutive. exact C.
 Qed.
+
+(* frames contain no delimiter *)
+Lemma pieces_clean : forall n b, (length b <= n)%nat -> Forall (fun p => find_sub delim10 p = None) (pieces n b).
+Proof.
+  induction n as [|n IH]; intros b L.
+  - destruct b; [|cbn in L; lia]. repeat constructor.
+  - cbn [pieces]. destruct (find_sub delim10 b) as [[m r]|] eqn:F; [|repeat constructor; exact F].
+    pose proof (find_some _ _ _ _ F) as [E Min]. constructor.
+    + apply find_none. intros (p1 & q1 & E1). subst m.
+      specialize (Min p1 (q1 ++ delim10 ++ r)). rewrite E in Min. rewrite <- !app_assoc in Min.
+      specialize (Min eq_refl). rewrite !app_length in Min. cbn in Min. lia.
+    + apply IH. apply (f_equal (@length N)) in E. rewrite !app_length in E. cbn in E. lia.
+Qed.
+
+Lemma frames_clean b : Forall (fun p => find_sub delim10 p = None) (frames b).
+Proof. apply pieces_clean. lia. Qed.
